@@ -43,19 +43,108 @@ def do_py(cases):
     return res
 
 
-def do_ctype(cases, progress, markers=False):
+class StrSub(str):
+    pass
+
+
+class EvilStr(str):
+    """a str subclass whose Python-level conversions all fail: the back end must use the str payload (or refuse)"""
+    def __str__(self):
+        raise RuntimeError("EvilStr.__str__")
+
+    def encode(self, *a, **k):
+        raise RuntimeError("EvilStr.encode")
+
+    def __bytes__(self):
+        raise RuntimeError("EvilStr.__bytes__")
+
+
+class BytesSub(bytes):
+    pass
+
+
+def build_arg(c):
+    """the Python object handed to the API: `text` (old ctype cases) or the concatenation of parts [[s, n], ...]"""
+    text = "".join(s * n for s, n in c["parts"]) if "parts" in c else c["text"]
+    form = c.get("form") or ("bytes" if c.get("bytes") else "str")
+    if form == "str":
+        return text
+    if form == "sub":
+        return StrSub(text)
+    if form == "evil":
+        return EvilStr(text)
+    b = text.encode(c.get("enc") or "latin-1", "surrogatepass")
+    if form == "bytes":
+        return b
+    if form == "bytessub":
+        return BytesSub(b)
+    if form == "bytearray":
+        return bytearray(b)
+    return memoryview(b)
+
+
+def call_api(f, lib, api, a):
+    if api == "typeof":
+        return f.typeof(a)
+    if api == "new":
+        return f.new(a)
+    if api == "cast":
+        return f.cast(a, 0)
+    if api == "sizeof":
+        return f.sizeof(a)
+    if api == "alignof":
+        return f.alignof(a)
+    if api == "getctype":
+        return f.getctype(a)
+    if api == "getctype2":
+        return f.getctype("int", a)
+    if api == "offsetof":
+        return f.offsetof(a, "a")
+    if api == "offsetof2":
+        return f.offsetof("foo_t", a)
+    if api == "offsetof3":
+        return f.offsetof("foo_t", "b", a)
+    if api == "callback":
+        return f.callback(a, lambda *args: 0)
+    if api == "from_buffer":
+        return f.from_buffer(a, bytearray(64))
+    if api == "integer_const":
+        return f.integer_const(a)
+    if api == "libattr":
+        return getattr(lib, a)
+    if api == "libhas":
+        return hasattr(lib, a)
+    if api == "addressof":
+        return f.addressof(lib, a)
+    raise KeyError(api)
+
+
+def exc_name(f, e):
+    """canonical class: ffi.error, else the nearest of the classes the property names (UnicodeEncodeError is a
+    ValueError), else the class itself; `cls` keeps the real name"""
+    if isinstance(e, f.error):
+        return "ffi.error"
+    for k in (TypeError, ValueError, AttributeError, OverflowError, MemoryError):
+        if isinstance(e, k):
+            return k.__name__
+    return type(e).__name__
+
+
+def do_ctype(cases, progress, markers=False, base=0):
     import _cffi_backend
     res = []
     ffi = _cffi_backend.FFI()
     # a compiled-style FFI with some declared names, so that identifiers resolve: built through a module
-    ffis = [ffi]
+    ffis, libs = [ffi], [None]
     try:
         # (API mode: loading an out-of-line ABI module would go through cdlopen.c, which is not this property's code)
         decls = ("typedef struct foo_s { int a; short b[3]; } foo_t; typedef int (*fn_t)(int, ...); "
                  "enum e1 { AA, BB }; union u1 { int x; char y; }; typedef unsigned char uint8; ")
+        extra = "\n#define C30_CONST 42\nstatic const int c30_k; int c30_fn(int); extern int c30_var;"
         f0 = cffi.FFI()
-        f0.cdef(decls + "struct opaque;")
-        f0.set_source("_c30_mod", decls + "struct opaque;")
+        f0.cdef(decls + "struct opaque;" + extra)
+        f0.set_source("_c30_mod", decls + "struct opaque;\n#define C30_CONST 42\n#define c30_k 7\n"
+                      "static int c30_fn(int x) { return x; }\nint c30_var = 3;")
         sys.path.insert(0, os.environ["VERIF_WORK"])
         import glob
         if not glob.glob(os.path.join(os.environ["VERIF_WORK"], "_c30_mod*.so")):
@@ -63,6 +152,8 @@ def do_ctype(cases, progress, markers=False):
         import importlib
         mod = importlib.import_module("_c30_mod")
         ffis.append(mod.ffi)
+        libs.append(mod.lib)
+        libs[0] = mod.lib
     except Exception as e:
         return dict(setup_error="%s: %s" % (type(e).__name__, e))
     with open(progress, "w") as pf:
@@ -71,16 +162,15 @@ def do_ctype(cases, progress, markers=False):
             pf.write("%d\n" % i)
             pf.flush()
             if markers:
-                sys.stderr.write("@@C30 %d\n" % i)
+                sys.stderr.write("@@C30 %d\n" % (base + i))
                 sys.stderr.flush()
-            s = c["text"]
-            arg = s.encode("latin-1") if c.get("bytes") else s
             f = ffis[c.get("ffi", 0) % len(ffis)]
             try:
-                ct = f.typeof(arg)
-                res.append(dict(exc=None, cname=ct.cname))
+                arg = build_arg(c)
+                r = call_api(f, libs[c.get("ffi", 0) % len(ffis)], c.get("api", "typeof"), arg)
+                res.append(dict(exc=None, cname=getattr(r, "cname", None)))
             except Exception as e:
-                res.append(dict(exc="ffi.error" if type(e) is f.error else type(e).__name__, msg=str(e)[:120]))
+                res.append(dict(exc=exc_name(f, e), cls=type(e).__name__, msg=str(e)[:120].encode("ascii", "replace").decode()))
     return res
 
 
@@ -92,7 +182,8 @@ def main(payload):
     if payload["op"] == "py":
         return dict(results=do_py(payload["cases"]))
     if payload["op"] == "ctype":
-        return dict(results=do_ctype(payload["cases"], payload["progress"], payload.get("markers", False)))
+        return dict(results=do_ctype(payload["cases"], payload["progress"], payload.get("markers", False),
+                                      payload.get("base", 0)))
     return dict(results=do_re(payload["cases"]))
 
 
